@@ -125,7 +125,19 @@ impl PathSliceList {
         scopes: &Vec<ScopeVar>,
         model: Option<bool>,
     ) -> Result<(), TmplError> {
+        // the path of a loop item is `null` at run time when the list itself has no path
+        // (e.g. the list is a conditional and the branch taken is not assignable)
+        let item_path_var = match self.0.first() {
+            Some(PathSlice::ScopeIndex(i)) => match &scopes[*i].lvalue_path {
+                ScopeVarLvaluePath::Var { var_name, .. } => Some(var_name.clone()),
+                _ => None,
+            },
+            _ => None,
+        };
         let br = |w: &mut JsExprWriter<W>| -> Result<(), TmplError> {
+            if let Some(var_name) = item_path_var.as_ref() {
+                write!(w, "({}?", var_name)?;
+            }
             write!(w, "[")?;
             let mut write_items = || -> Result<bool, TmplError> {
                 let mut iter = self.0.iter();
@@ -188,6 +200,9 @@ impl PathSliceList {
             write!(w, "]")?;
             if need_slice_1 {
                 write!(w, ".slice(1)")?;
+            }
+            if item_path_var.is_some() {
+                write!(w, ":null)")?;
             }
             Ok(())
         };
